@@ -31,6 +31,19 @@ const (
 // client once the error has been written indicating the end of a command cycle.
 // https://www.postgresql.org/docs/current/static/protocol-error-fields.html
 func ErrorCode(writer *buffer.Writer, err error) error {
+	err = errorResponse(writer, err)
+	if err != nil {
+		return err
+	}
+
+	// NOTE: we are writing a ready for query message to indicate the end of a
+	// command cycle.
+	return readyForQuery(writer, types.ServerIdle)
+}
+
+// errorResponse writes the given error as a single error response message. The
+// command cycle is not ended: no ready for query message is written.
+func errorResponse(writer *buffer.Writer, err error) error {
 	desc := psqlerr.Flatten(err)
 
 	writer.Start(types.ServerErrorResponse)
@@ -78,12 +91,5 @@ func ErrorCode(writer *buffer.Writer, err error) error {
 	}
 
 	writer.AddNullTerminate()
-	err = writer.End()
-	if err != nil {
-		return err
-	}
-
-	// NOTE: we are writing a ready for query message to indicate the end of a
-	// command cycle.
-	return readyForQuery(writer, types.ServerIdle)
+	return writer.End()
 }
